@@ -505,13 +505,13 @@ Definition exec_batch (s : state) (id : Z) : res :=
    records ([export_all_oracles]: every record / only the online ones, re-read from ExportGenesis on every run),
    proposal list, oracle sets and batches with their confirms, the two slash cursors 0x28 / 0x30.  Import writes
    each record and rebuilds both indexes from it, recomputes LastTotalPower, keeps a confirm only if some imported
-   oracle currently has the confirm's bridger (and files it under that oracle), sets the latest set nonce to the
-   largest one.  Not exported: outgoing bridge calls, their confirms and cursor, LastOracleSlashBlockHeight. *)
+   oracle has the confirm's external address (GetOracleAddrByExternalAddr; it is filed under that oracle), sets the
+   latest set nonce to the largest one.  Not exported: outgoing bridge calls, their confirms and cursor, LastOracleSlashBlockHeight. *)
 Definition exported (s : state) : list oracle := if export_all_oracles then all_recs s else online_recs s.
 
 Definition import_conf (ex : list oracle) (x : obj) : obj :=
   mkObj (ob_nonce x) (ob_height x)
-    (flat_map (fun c => match find (fun r => o_bridger r =? snd (fst c)) ex with
+    (flat_map (fun c => match find (fun r => o_ext r =? snd c) ex with
                         | Some r => [(o_addr r, snd (fst c), snd c)]
                         | None => []
                         end) (ob_conf x)).
